@@ -6,6 +6,7 @@ import Driver.C13
 import Driver.C15
 import Driver.C17
 import Driver.C20
+import Driver.C11
 open Driver
 
 def dispatch (line : String) : String :=
@@ -15,6 +16,9 @@ def dispatch (line : String) : String :=
   | "exit" :: args => C05.exit args
   | "checks" :: args => EnableOp.checks args
   | "merge" :: args => EnableOp.merge args
+  | "pipeline" :: args => C11.pipelineOp args
+  | "monitor" :: args => C11.monitorOp args
+  | "schedmon" :: args => C11.schedmonOp args
   | "depcheck" :: args => C20.depcheck args
   | "reconcile" :: args => C17.reconcile args
   | "failover" :: args => C15.failoverOp args
